@@ -42,30 +42,27 @@ var ObligatoryPrintDirectiveNames = []string{}
 
 func directiveInsertWordBreaks(value data.Value, args []data.Value) data.Value {
 	var (
-		input    = template.HTMLEscapeString(value.String())
+		input    = value.String()
 		maxChars = int(args[0].(data.Int))
 		chars    = 0
-		output   *bytes.Buffer // create the buffer lazily
+		output   bytes.Buffer
 	)
-	for i, ch := range input {
+	// Count the characters of the value (not of its escaped form, so that a
+	// break never lands inside a character reference) and escape each one as it
+	// is written.
+	for i, width := 0, 0; i < len(input); i += width {
+		var ch rune
+		ch, width = utf8.DecodeRuneInString(input[i:])
 		switch {
 		case ch == ' ':
 			chars = 0
 		case chars >= maxChars:
-			if output == nil {
-				output = bytes.NewBufferString(input[:i])
-			}
 			output.WriteString("<wbr>")
 			chars = 1
 		default:
 			chars++
 		}
-		if output != nil {
-			output.WriteRune(ch)
-		}
-	}
-	if output == nil {
-		return value
+		htmlEscapeString(&output, input[i:i+width])
 	}
 	return data.String(output.String())
 }
